@@ -99,6 +99,12 @@ def inject(cfg, fault):
         cfg['instructions']['ld']['variants'] = [{'bytecode': {'value': 77, 'size': 8}, 'operands': {'count': 0, 'operand_sets': {'list': ['imm8']}}}]
     elif fault == 'variant_unknown_operand_set':
         cfg['instructions']['ld']['variants'] = [{'bytecode': {'value': 77, 'size': 8}, 'operands': {'count': 1, 'operand_sets': {'list': ['nosuchset']}}}]
+    elif fault in ('specific_undeclared_register', 'specific_inverted_range', 'specific_unknown_operand_type'):
+        # the fault sits in an explicitly listed operand combination of an instruction the program never uses
+        op = {'specific_undeclared_register': {'type': 'register', 'register': 'zz', 'bytecode': {'value': 1, 'size': 4}},
+              'specific_inverted_range': {'type': 'numeric_bytecode', 'bytecode': {'size': 4, 'min': 7, 'max': 0}},
+              'specific_unknown_operand_type': {'type': 'no_such_type', 'bytecode': {'value': 1, 'size': 4}}}[fault]
+        cfg['instructions']['unused'] = {'bytecode': {'value': 9, 'size': 4}, 'operands': {'count': 1, 'specific_operands': {'only': {'list': {'sx': op}}}}}
     elif fault == 'macro_keyword':
         cfg.setdefault('macros', {})['zero'] = [{'instructions': ['nop']}]
     elif fault == 'macro_same_as_instruction':
@@ -131,7 +137,7 @@ def build(e):
         cfg['general']['identifier'] = {'name': 'genisa', 'version': vtext(s['iv'])}
         lang = {'same': 'genisa', 'other': 'otherisa', 'prefix': 'gen', 'suffix': 'isa', 'infix': 'enis', 'longer': 'genisa2', 'empty': ''}[s['name']]
         req = f'#require "{lang} {s["op"]} {vtext(s["v"])}"' if s['op'] else f'#require "{lang}"'
-        src = req + '\n' + src
+        src = ('#require "genisa"\n' if s['kind'] == 'require2' else '') + req + '\n' + src
     text = json.dumps(cfg, indent=1) if name.endswith('.json') else isagen.dump(cfg)
     return {'config': text, 'config_name': name, 'files': {'main.asm': src}}
 
